@@ -107,7 +107,7 @@ for h in _de:
 
 _ser = [
     H("scalar_slots", "C13.K.ser.scalar_slots", SER, ["Serializer for AnySerializer::serialize_" + t for t in ["bool"] + INTS + ["f32", "f64", "unit", "none", "unit_struct"]],
-      "every scalar method of AnySerializer stores exactly its payload in the matching slot (all values)"),
+      "every scalar method of AnySerializer stores a value that re-serializes as the same JSON value (integers by numeric value, floats bitwise with their width)"),
     H("wrappers_are_transparent", "C13.K.ser.transparent", SER, ["Serializer for AnySerializer::serialize_some", "Serializer for AnySerializer::serialize_newtype_struct"],
       "Some(v) and newtype structs serialize as v"),
     H("seq_serializer_steps", "C13.K.frame.seq_serializer", SER, ["SerializeSeq for SeqSerializer::serialize_element", "SerializeSeq for SeqSerializer::end", "Serializer for AnySerializer::serialize_seq"],
